@@ -156,7 +156,7 @@ theorem sfd_quiet (cfg : Config) (cur : ConnState) (d : Nat) (h : QuietFor cfg d
     stateForDisconnection cfg cur (some d)
       (if cfg.failedTimeout != 0 then cfg.failedTimeout + cfg.disconnectedTimeout else 0) = .connected := by
   rw [IceProofs.AgentC04.sfd_some]
-  obtain ⟨h1, h2⟩ := h
+  obtain ⟨h1, h2, _⟩ := h
   have e1 : ¬ (cfg.disconnectedTimeout ≠ 0 ∧ cfg.disconnectedTimeout < d) := by
     rintro ⟨x, y⟩
     rcases h1 with h1 | h1
@@ -176,6 +176,7 @@ theorem sfd_quiet (cfg : Config) (cur : ConnState) (d : Nat) (h : QuietFor cfg d
   rw [if_neg e2, if_neg e1]
 
 theorem Timely.valOK {T0 H : Nat} {a : Agent} (h : Timely T0 H a) {now : Nat} (hn : now ≤ H) : ValOK a now := by
+  refine ⟨?_, h.span.2.2⟩
   intro p hp
   cases hs : a.selected with
   | none => rw [hs] at hp; cases hp
